@@ -263,6 +263,25 @@ pub fn scalar_for_mul() -> BoxedStrategy<B32> {
     ].boxed()
 }
 
+/// pairs of 32-byte strings for byte-equality of compressed forms: equal, differing in bit 255 only,
+/// differing by p (aliases of the same field element), differing in one other bit, unrelated
+pub fn byte_pairs(base: BoxedStrategy<B32>) -> BoxedStrategy<(B32, B32)> {
+    (base.clone(), base, 0u8..6, 0usize..255).prop_map(|(a, b, kind, bit)| {
+        let mut c = a;
+        match kind {
+            0 => {}
+            1 => c[31] ^= 0x80,
+            2 => {
+                let (s, carry) = U256::from_le(&a).add_c(&crate::model::fp::p());
+                if !carry { c = s.to_le(); } else { c = U256::from_le(&a).wrapping_sub(&crate::model::fp::p()).to_le(); }
+            }
+            3 => c[bit / 8] ^= 1 << (bit % 8),
+            _ => c = b,
+        }
+        (a, c)
+    }).boxed()
+}
+
 // ------------------------------------------------------------------------------------
 // Points
 // ------------------------------------------------------------------------------------
